@@ -24,7 +24,7 @@ TAGS = {"C02": "C02:", "C03": "C03:", "C04": "C04:", "C05": "C05:", "C06": "C06:
 BASE = dict(NReq=3, NOrig=1, MaxDial=2, MaxTick=0, AsBuilt="{}", Caps="{TRUE, FALSE}", MaxIdles="{1, 2}",
             IdleTimeouts="{0}", Protos="{TRUE, FALSE}", Faults="SomeFaults", Spurious="FALSE", AllowDrop="FALSE")
 INVS = "TypeOK C02state HandleUnique C15 NoOrphan PureHasOwner MarkerHasOwner"
-PROPS = "C02step C06step C05step C05pop C14a C04iv C04ivIdle C04kept C04issue C04dial NoSpuriousError"
+PROPS = "C02step C06step C05step C05pop C14a C04iv C04ivIdle C04kept C04rel C04issue C04dial NoSpuriousError"
 
 SLICES = {
     "quick": {
@@ -50,13 +50,15 @@ SLICES = {
 # random walks per property: a list of argument lists for `pool walk` (each is one walk campaign)
 WALKS = {
     "quick": {
-        "C02": [["--runs", 300, "--steps", 45, "--origins", 2, "--maxreq", 6]],
+        "C02": [["--runs", 300, "--steps", 45, "--origins", 2, "--maxreq", 6],
+                ["--runs", 25, "--steps", 12, "--origins", 1, "--maxreq", 8, "--h2prob", "0.1", "--tick", "--busytick", "--cancelw", 1]],
         "C03": [["--runs", 350, "--steps", 40, "--origins", 1, "--maxreq", 5, "--h2prob", "0.7", "--cancelw", 3],
                 ["--runs", 100, "--steps", 40, "--origins", 2, "--maxreq", 6, "--h2prob", "0.6", "--droppool", "--nopool"],
                 ["--runs", 50, "--steps", 40, "--origins", 1, "--maxreq", 5, "--h2prob", "0.7", "--cancelw", 3, "--contend"]],
         "C04": [["--runs", 350, "--steps", 40, "--origins", 1, "--maxreq", 6, "--h2prob", "0.6"],
                 ["--runs", 15, "--steps", 45, "--origins", 1, "--maxreq", 7, "--h2prob", "0.15", "--tick", "--cancelw", 1],
-                ["--runs", 25, "--steps", 8, "--origins", 1, "--maxreq", 12, "--h2prob", "0.0", "--tick", "--aging", "--cancelw", 0]],
+                ["--runs", 25, "--steps", 8, "--origins", 1, "--maxreq", 12, "--h2prob", "0.0", "--tick", "--aging", "--cancelw", 0],
+                ["--runs", 30, "--steps", 6, "--origins", 1, "--maxreq", 12, "--h2prob", "1.0", "--tick", "--h2keep", "--cancelw", 0]],
         "C05": [["--runs", 40, "--steps", 40, "--origins", 1, "--maxreq", 6, "--h2prob", "0.2", "--tick", "--closew", 3],
                 ["--runs", 25, "--steps", 8, "--origins", 1, "--maxreq", 12, "--h2prob", "0.0", "--tick", "--aging", "--cancelw", 0]],
         "C06": [["--runs", 150, "--steps", 50, "--origins", 13, "--maxreq", 14, "--cancelw", 1]],
@@ -275,7 +277,7 @@ def run(pid, tier, seed, t0, asbuilt=None):
     g = dict(GEN[tier])
     if consts.get("MaxTick", 0) > 0:
         # every Tick of a replayed schedule is a real 120 ms sleep (std::time::Instant cannot be paused)
-        g["num"] = min(g["num"], 5000)
+        g["num"] = min(g["num"], 5000 if tier == "thorough" else 500)
     write_cfg(os.path.join(vlib.SPEC, gcfg), gconsts, "", "", gen=dict(depth=g["depth"]))
     gen = vlib.tlc("MC_PoolGen.tla", gcfg, pid, workers=1, timeout=3400, simulate=g["num"], depth=g["depth"] + 1, seed=seed)
     os.remove(os.path.join(vlib.SPEC, gcfg))
